@@ -94,6 +94,14 @@ def mem_family():
         progs.append(("mem_grow_%d" % lim, prog(init, t, lim=lim + 40, keys=("k1", "k2"))))
         t = [[{"op": "incr", "k": 1, "d": 1}], [{"op": "incr", "k": 2, "d": 1}], [{"op": "delete", "k": 1}]]
         progs.append(("mem_incr_%d" % lim, prog([], t, lim=lim, keys=("k1", "k2"))))
+    # racing overwrites of one key with values of different sizes (exact accounting at quiescence)
+    init = [{"op": "insert", "k": 1, "v": B1, "auto": False, "tsv": NOW - 10 * E9}]
+    for (va, vb) in ((B3, B2), (B2, B3)):
+        t = [[{"op": "insert", "k": 1, "v": va, "auto": False, "tsv": NOW + 2}],
+             [{"op": "insert", "k": 1, "v": vb, "auto": False, "tsv": NOW + 1}]]
+        progs.append(("mem_overwrite_%d" % va["len"], prog(init, t)))
+        t = [[{"op": "insert", "k": 1, "v": va}], [{"op": "cas", "k": 1, "x": B1, "v": vb}], [{"op": "delete", "k": 1}]]
+        progs.append(("mem_mix_%d" % va["len"], prog(init, t)))
     return progs
 
 
